@@ -13,6 +13,8 @@ import json
 
 from harness.common import Model, canon
 
+FACTS = ()
+
 RULE = ("exhaustive texts over {a, newline} up to the tier's length bound with every offset "
         "0..len+1, plus seeded random texts over {a, \\n, \\r, \\x0b, \\x0c, U+2028, U+1F600}; "
         "distinct by (text, offset); non-trivial = text contains a newline")
